@@ -22,9 +22,20 @@
 
    The state machine only serves to enumerate cases (one per TLC state, fanned out level by level so
    that all workers are busy): root -> class -> size -> variant -> bc -> built -> query result.
-   Every state is self-contained: `cfg` is the constructor input, `order`/`full` the expected
-   order, `last` the query with the expected answer.  All dumped values are records / sequences /
-   integers / strings / booleans (no sets) so that the harness can read them quickly. *)
+   Every state is self-contained (the path to it is recorded in `cfg`, so no separate history variable
+   is needed): `cfg` is the constructor input, `order`/`full` the expected order, `last` the query with
+   the expected answer.  All dumped values are records / sequences / integers / strings / booleans
+   (no sets) so that the harness can read them quickly.
+
+   Theorems (INVARIANTs, evaluated on every enumerated case): OrderIsBijection, RoundTrip, HelixFormula,
+   StdOrderMeaning, EachPairExactlyOnce (constructive enumeration = brute force over all pairs of sites),
+   InfiniteBoundaryPairInOneCell, FlipSymmetry, AnchorsArePlacements, StrengthIndex, CountNeighbors.
+
+   Remarks on the reading of the documentation:
+   * 'Fstyle' is Fortran order of *all* directions including u (get_order: priority (dim, ..., 1, 0));
+     the table in Lattice.ordering claims priority (dim-1, ..., 0, dim), which differs for Lu > 1.
+   * the geometry tables (Geo) are the basis / unit cell positions of the class constructors; the replay
+     binds them to the implementation through Lattice.distance / Lattice.position. *)
 EXTENDS Integers, Sequences, FiniteSets, TLC
 
 CONSTANTS Classes,      \* top level classes to enumerate
@@ -451,8 +462,10 @@ AddChoices ==
 VariantHash(rem, add) ==
     LET shape == Ls \o <<RegNu + 1>>
         r == SetToSeq(rem)
-    IN SumSeq([k \in 1..Len(r) |-> 7 * (CFlat(shape, r[k]) + 1)])
-         + SumSeq([k \in 1..Len(add) |-> 13 * (CFlat(shape, add[k].lat) + 1) + 3 * (add[k].where % 5)])
+    IN SumSeq([k \in 1..Len(r) |-> 7 * (CFlat(shape, r[k]) + 1) * (CFlat(shape, r[k]) + 3)])
+         + SumSeq([k \in 1..Len(add) |-> 13 * (CFlat(shape, add[k].lat) + 1) * (CFlat(shape, add[k].lat) + 2)
+                                            + 3 * (add[k].where % 5)])
+         + 5 * ProdSeq(Ls) + RegNu
 
 ChooseVariant ==
     /\ stage = "size"
